@@ -154,7 +154,7 @@ def write_gro(system, file_name, precision=7, title='Martinized!', box=(0, 0, 0)
         out.write(formatter.format('{}\n', system.num_particles))  # number of atoms
         atomid = 1
         for molecule in system.molecules:
-            node_order = molecule.nodes
+            node_order = molecule.sorted_nodes
             for node_idx in node_order:
                 node = molecule.nodes[node_idx]
                 atomname = node['atomname']
